@@ -24,31 +24,58 @@ type c07DB struct {
 	mutations int // state-changing calls
 	snaps     int
 	reverts   int
+	// det: reads are deterministic uninterpreted functions of their arguments (C08 reference checks)
+	det     bool
+	lastLog *types.Log
+	nlogs   int
+	refunds uint64
+	setKey  common.Hash
+	setVal  common.Hash
+	nsets   int
 }
 
 func (d *c07DB) CreateAccount(common.Address)             { d.mutations++ }
 func (d *c07DB) SubBalance(common.Address, *big.Int)      { d.mutations++ }
 func (d *c07DB) AddBalance(common.Address, *big.Int)      { d.mutations++ }
-func (d *c07DB) GetBalance(common.Address) *big.Int       { return vs.BigU("db.balance", 256) }
+func (d *c07DB) GetBalance(a common.Address) *big.Int {
+	if d.det {
+		return new(big.Int).SetBytes(vs.UF("db.balance", 32, a[:]))
+	}
+	return vs.BigU("db.balance", 256)
+}
 func (d *c07DB) GetNonce(common.Address) uint64           { return vs.U64("db.nonce") }
 func (d *c07DB) SetNonce(common.Address, uint64)          { d.mutations++ }
 func (d *c07DB) GetCodeHash(common.Address) common.Hash   { return c07Hash("db.codehash") }
 func (d *c07DB) GetCode(common.Address) []byte            { return vs.Bytes("db.code", 2) }
 func (d *c07DB) SetCode(common.Address, []byte)           { d.mutations++ }
-func (d *c07DB) GetCodeSize(common.Address) int           { return int(vs.U32("db.codesize")) }
-func (d *c07DB) AddRefund(uint64)                         { d.mutations++ }
+func (d *c07DB) GetCodeSize(a common.Address) int {
+	if d.det {
+		b := vs.UF("db.codesize", 3, a[:])
+		return int(b[0])<<16 | int(b[1])<<8 | int(b[2])
+	}
+	return int(vs.U32("db.codesize"))
+}
+func (d *c07DB) AddRefund(n uint64)                       { d.mutations++; d.refunds += n }
 func (d *c07DB) GetRefund() uint64                        { return vs.U64("db.refund") }
-func (d *c07DB) GetState(common.Address, common.Hash) common.Hash {
+func (d *c07DB) GetState(a common.Address, k common.Hash) (h common.Hash) {
+	if d.det {
+		copy(h[:], vs.UF("db.state", 32, a[:], k[:]))
+		return
+	}
 	return c07Hash("db.state")
 }
-func (d *c07DB) SetState(common.Address, common.Hash, common.Hash) { d.mutations++ }
+func (d *c07DB) SetState(a common.Address, k common.Hash, v common.Hash) {
+	d.mutations++
+	d.nsets++
+	d.setKey, d.setVal = k, v
+}
 func (d *c07DB) Suicide(common.Address) bool                        { d.mutations++; return vs.Bool("db.suicide") }
 func (d *c07DB) HasSuicided(common.Address) bool                    { return vs.Bool("db.hassuicided") }
 func (d *c07DB) Exist(common.Address) bool                          { return vs.Bool("db.exist") }
 func (d *c07DB) Empty(common.Address) bool                          { return vs.Bool("db.empty") }
 func (d *c07DB) RevertToSnapshot(int)                               { d.reverts++ }
 func (d *c07DB) Snapshot() int                                      { d.snaps++; return d.snaps }
-func (d *c07DB) AddLog(*types.Log)                                  { d.mutations++ }
+func (d *c07DB) AddLog(l *types.Log)                                { d.mutations++; d.nlogs++; d.lastLog = l }
 func (d *c07DB) AddPreimage(common.Hash, []byte)                    {}
 func (d *c07DB) ForEachStorage(common.Address, func(common.Hash, common.Hash) bool) {}
 
